@@ -123,3 +123,5 @@ func drawLayouts(t *rapid.T, n ast.Node, k int, wild int) ([]string, map[string]
 }
 
 func convertTo(v cty.Value, ty cty.Type) (cty.Value, error) { return convert.Convert(v, ty) }
+
+type astNode = ast.Node
